@@ -96,6 +96,33 @@ int main (int argc, char** argv)
     single s (m); s.sample_size = 3;
     out_mat ("g", s.get_crosscovariance (0)); out_mat ("w", s.get_covariance ()); });
 
+#ifndef SYMX_SYMBOLIC
+  // sizes beyond the grid at which the unrolled loops are tied to the all-n formulas: the same statements,
+  // numerically, against the brute-force double sum (the loops have no size-dependent branch; this is what
+  // would notice one)
+  fn ("large_sizes_plain", [] {
+    uint64_t st = 99; auto rnd = [&st] () { st = st * 6364136223846793005ULL + 1442695040888963407ULL; return double ((st >> 33) % 2000001) / 1e6 - 1.0; };
+    for (unsigned n : { 7u, 8u, 9u, 11u, 12u, 16u, 17u, 31u, 33u, 64u, 100u, 255u, 256u, 257u, 1000u }) {
+      unsigned Lmax = n <= 64 ? 3 : 1;
+      stub_mode* m = new stub_mode; m->c = 1.0 + rnd ();
+      for (unsigned l=0; l<=(Lmax + 1)*n; l++) m->x.push_back (rnd () / (1.0 + l));
+      single s (m); s.sample_size = n; char what[200];
+      { Matrix<4,4,double> C = s.get_covariance (); double sum = 0;
+        for (unsigned i=0; i<n; i++) for (unsigned j=0; j<n; j++) { unsigned l = i > j ? i - j : j - i; sum += (l == 0) ? m->c : m->x[l]; }
+        snprintf (what, 200, "n = %u: predicted covariance of the sample mean = double sum / n^2", n);
+        for (unsigned i=0; i<4; i++) for (unsigned j=0; j<4; j++) expect (what, C[i][j], m->P[i][j] * sum / (double (n) * double (n)), 1e-12); }
+      for (unsigned L=0; L<=Lmax; L++) { Matrix<4,4,double> X = s.get_crosscovariance (L); double sum = 0;
+        for (unsigned i=0; i<n; i++) for (unsigned j=0; j<n; j++) { long l = long (L*n + i) - long (j); if (l < 0) l = -l; sum += m->x[l]; }
+        snprintf (what, 200, "n = %u, sample lag %u: predicted cross-covariance = double sum / n^2", n, L);
+        for (unsigned i=0; i<4; i++) for (unsigned j=0; j<4; j++) expect (what, X[i][j], m->P[i][j] * sum / (double (n) * double (n)), 1e-12); }
+      // the generator consumes exactly n instances and returns their mean
+      if (n <= 257) { stub_mode* g = new stub_mode; for (unsigned k=0; k<n+3; k++) g->fields.push_back (Spinor<double> (std::complex<double> (rnd (), rnd ()), std::complex<double> (rnd (), rnd ())));
+        single sg (g); sg.sample_size = n; Stokes<double> got = sg.get_Stokes (); Stokes<double> want;
+        for (unsigned k=0; k<n; k++) { Vector<4,double> t; compute_stokes (t, g->fields[k]); for (unsigned i=0; i<4; i++) want[i] += t[i]; }
+        snprintf (what, 200, "n = %u: a sample consumes exactly n instances", n); expect (what, g->calls, n);
+        snprintf (what, 200, "n = %u: a sample is the mean of its n instances", n); for (unsigned i=0; i<4; i++) expect (what, got[i], want[i] / double (n), 1e-12); }
+    } }, 1);
+#endif
   symx::finish ();
   return 0;
 }
